@@ -69,4 +69,11 @@ values as a whole. -/
 theorem whole_identity_compared :
     comparesWholeIdentity = true ∧ identityFromCurrentOptions = true ∧ resumeUsesThatIdentity = true := by decide
 
+/-- The source-count guards are the model's: a completed graph is refused when its node count OR its
+relationship count differs from the recorded one (`sourceOk` compares the pair; a conjunction would accept a
+change in one dimension), and the graph in progress when its whole snapshot (both counts) differs. -/
+theorem source_guards_as_modelled :
+    completedSourceGuard = "snapshot.NodeCount != graphEntry.NodeCount || snapshot.EdgeCount != graphEntry.EdgeCount" ∧
+    currentSourceGuard = "checkpoint.Snapshot != currentSnapshot" ∧ snapshotFields = ["NodeCount", "EdgeCount"] := by decide
+
 end Dawgs.C19.Props
